@@ -46,6 +46,11 @@ var Holes = []Hole{
 	{Pre: "T | take ", Post: "", Kind: "number", A: "1", B: "2", Alpha: "0179xXaAfF", IntOnly: true},
 	{Pre: "T | as `", Post: "` | where a | join (U) on k | count", Open: 1, Close: 1, Kind: "name", A: "x", B: "y"},
 	{Pre: "T | sort by `", Post: "` desc", Open: 1, Close: 1, Kind: "name", A: "x", B: "y"},
+	// 24-27: strings as operands of the other comparison operators and of strcat
+	{Pre: "T | where a =~ '", Post: "'", Open: 1, Close: 1, Kind: "string", A: "x", B: "y"},
+	{Pre: "T | where a !~ \"", Post: "\"", Open: 1, Close: 1, Kind: "string", A: "x", B: "y"},
+	{Pre: "T | where '", Post: "' != a", Open: 1, Close: 1, Kind: "string", A: "x", B: "y"},
+	{Pre: "T | extend b = strcat(a, '", Post: "')", Open: 1, Close: 1, Kind: "string", A: "x", B: "y"},
 }
 
 // holeTokens returns the indexes of the tokens that differ between two token lists of equal shape.
